@@ -46,9 +46,26 @@ def cases():
                         return f"({txt})" if (br and not top) else txt
 
                     out.append(rec(sk, True))
-    out = sorted(set(out))
+    out = sorted(set(out)) + formatted_cases()
     _CASES[MAXC] = out
     return out
+
+
+def formatted_cases():
+    """longer / oddly formatted inputs: doubled and nested brackets around groups, expressions of ten operands with
+    whitespace after some operators only (nothing a tokenizer cares about, everything a textual pre-processing does)"""
+    out = []
+    k = len(CONN)
+    for code in range(k**3):
+        a, b, c = (CONN[d] for d in shapes.digits(code, [k, k, k]))
+        la, lb, lc = (LOWER.get(x, x) if code % 3 == 1 else x for x in (a, b, c))
+        out.append(f"(([1][901]){a}([2][902])){b}[3]{c}[4]")
+        out.append(f"([4]{a}(([1]{b}[2]){c}[3]))")
+        out.append(f"(([1]{la}[2])){lb}([3]{lc}([17P]))")
+        pat = code % 3
+        sp = lambda op, i: (f" {op} " if (i + pat) % 3 == 0 else (f" {op}" if (i + pat) % 3 == 1 else f"{op}"))  # noqa: E731
+        out.append(f"[1]{sp(a, 0)}[2]{sp(b, 1)}[3]{sp(c, 2)}[4]{sp(la, 1)}[5]{sp(lb, 2)}[6]{sp(lc, 0)}[7][901]{sp(a, 2)}([8]{sp(b, 0)}[9])")
+    return sorted(set(out))
 
 
 def parse_case(idx: int) -> bool:
